@@ -135,6 +135,11 @@ def model_C(doc):
             ],
         }
     )
+    # an `and` type whose members share a property (directly and through a mixin)
+    for r_ in c["requests"]:
+        ro = r_.get("registrationOptions")
+        if isinstance(ro, dict) and ro.get("kind") == "and":
+            ro["items"] = ro["items"] + [{"kind": "reference", "name": "DocumentColorOptions"}, {"kind": "reference", "name": "StaticRegistrationOptions"}]
     # several classes with Python-keyword property names (collections of such classes must be ordered)
     for nm, kws in (("VerifKeywordsOne", ["import", "from"]), ("VerifKeywordsTwo", ["global"]), ("VerifKeywordsThree", ["class", "lambda", "in"]), ("AVerifKeywordsFour", ["try"])):
         c["structures"].append({"name": nm, "properties": [{"name": k, "type": {"kind": "base", "name": "string"}, "optional": True} for k in kws]})
@@ -271,6 +276,22 @@ def main(tier):
                 with open(p, "w") as f:
                     f.write(content)
             compare("stale", go("%s-stale" % plugin, outdir=dS), "hand-placed stale files")
+            # stale files that LOOK current: the reference output itself with other line endings, and
+            # with a trailing tail (longer than what will be written)
+            for variant in ("crlf", "tail"):
+                dV = os.path.join(root, "out-%s-%s" % (plugin, variant))
+                picked = sorted(ref_o)[:: max(1, len(ref_o) // 6)][:8]
+                for rel in picked:
+                    src = os.path.join(ref.outdir, rel)
+                    dst = os.path.join(dV, rel)
+                    os.makedirs(os.path.dirname(dst), exist_ok=True)
+                    data = open(src, "rb").read()
+                    if variant == "crlf":
+                        data = data.replace(b"\r\n", b"\n").replace(b"\n", b"\r\n")
+                    else:
+                        data = data + b"\n// stale tail left by an earlier, longer file\n" * 40
+                    open(dst, "wb").write(data)
+                compare(variant, go("%s-%s" % (plugin, variant), outdir=dV), "stale copy of the current output with %s" % ("CRLF line endings" if variant == "crlf" else "a longer tail"))
             if plugin == "rust":
                 # output package directory exists but is empty (previous contents = a bare directory)
                 dE = os.path.join(root, "out-rust-bare")
